@@ -539,7 +539,7 @@ func TestVerifC17ConsValidate(t *testing.T) {
 			runtime.GC()
 		}
 	}
-	// directed: F26 — bit arrays whose Bits and number of words disagree
+	// directed: F33 — bit arrays whose Bits and number of words disagree
 	for i, ba := range []c17BA{{1, 0}, {100, 1}, {64, 2}} {
 		id := cs.NextID()
 		if cs.Want(id) {
@@ -877,7 +877,7 @@ func TestVerifC17ReactorCons(t *testing.T) {
 			human: fmt.Sprintf("NewRoundStep{Height:%d Round:%d Step:1 LastCommitRound:%d}", h, rd, lcr)})
 	}
 
-	// ---- directed: F26, peer claims to be one height behind, then announces a valid block whose
+	// ---- directed: F33, peer claims to be one height behind, then announces a valid block whose
 	// bit array has Bits=1 and no words; gossipDataRoutine (catch-up branch) walks it
 	{
 		id := cs.NextID()
